@@ -102,6 +102,10 @@ func checkC14(c *Ctx) (int, error) {
 		cases = append(cases, &cs)
 	}
 	c.ev.Extra["max_destination_calls_in_a_history"] = maxN
+	// many failed streams on one Writer, then a healthy one (what a failed stream leaves behind must not add up)
+	soak := soakCases(c, rand.New(rand.NewSource(c.Seed+5)), "C14")
+	cases = append(cases, soak...)
+	c.ev.Extra["soak_cases"] = len(soak)
 	c.ev.Rule = fmt.Sprintf("every history of %d calls over {Write(small|large), Flush, Close} (TLC, WriterModel) on %d of %d settings; for each, one case per destination call index k = 1..N+1 (the k-th call fails with a fresh error value, every second one after accepting half of its bytes) and the fault-free run; distinct by (history, setting, k)", maxLen, per, len(allWSettings))
 	c.ev.Exhaustive = true
 	for _, cs := range spread(cases) {
